@@ -23,6 +23,7 @@ type Env struct {
 	depth int
 	prev  *Env // state at the loop head (step clauses)
 	loopEntry *State // memory state at loop entry (loop clauses only)
+	tsubst map[string]types.Type // type parameters of an instantiated generic callee -> its type arguments
 }
 
 func (e *Env) child() *Env {
@@ -65,6 +66,9 @@ func isBoolTy(t types.Type) bool {
 // resolveType resolves a type written in a contract.
 func (e *Env) resolveType(s string) (types.Type, string) {
 	s = strings.TrimSpace(s)
+	if t, ok := e.tsubst[s]; ok {
+		return t, ""
+	}
 	if strings.HasPrefix(s, "*") {
 		t, _ := e.resolveType(s[1:])
 		if t == nil {
@@ -196,8 +200,17 @@ func (e *Env) resolveType(s string) (types.Type, string) {
 			}
 		}
 	}
-	// type parameters of the function under verification
+	// type parameters of the function under verification (an instance: its type arguments)
 	if e.fg.fn != nil {
+		for fn := e.fg.fn; fn != nil; fn = fn.Parent() {
+			if tps, tas := fn.TypeParams(), fn.TypeArgs(); tps != nil && len(tas) == tps.Len() {
+				for i := 0; i < tps.Len(); i++ {
+					if tps.At(i).Obj().Name() == s {
+						return tas[i], ""
+					}
+				}
+			}
+		}
 		for _, tp := range e.fg.typeParams() {
 			if tp.Obj().Name() == s {
 				return tp, ""
@@ -984,6 +997,12 @@ func (e *Env) call(x *SExpr) Val {
 				// typeIs(ifaceValue, T)
 				a := e.tr(x.Args[0])
 				t, _ := e.resolveType(x.Args[1].String())
+				if tp, isTP := types.Unalias(t).(*types.TypeParam); t != nil && isTP {
+					// an opaque type parameter (generic body): the same uninterpreted test a type assertion to it uses
+					srt := e.sorts().sortOf(tp)
+					fg.declareFun("tpis."+srt, []string{"Iface"}, "Bool")
+					return boolVal(fmt.Sprintf("(tpis.%s %s)", srt, a.T))
+				}
 				if t != nil {
 					if _, isI := types.Unalias(t).Underlying().(*types.Interface); isI {
 						// an interface type: the dynamic type implements it (as the type switch / assertion does)
@@ -1051,6 +1070,11 @@ func (e *Env) call(x *SExpr) Val {
 				t, _ := e.resolveType(x.Args[1].String())
 				if t == nil {
 					e.fail(x, "asType needs a Go type")
+				}
+				if tp, isTP := types.Unalias(t).(*types.TypeParam); isTP {
+					srt := e.sorts().sortOf(tp)
+					fg.declareFun("tpcast."+srt, []string{"Iface"}, srt)
+					return Val{T: fmt.Sprintf("(tpcast.%s %s)", srt, a.T), Ty: t}
 				}
 				return Val{T: e.sorts().unbox(e.sorts().sortOf(t), fmt.Sprintf("(i.val %s)", a.T)), Ty: t}
 			case "prev":
